@@ -103,8 +103,13 @@ structure Tag where
 
 def Tag.ofFmt (f : Fmt) : Tag := ⟨f, false, []⟩
 
-inductive Conv where | default | sum
+/-- colour converter: the library's default one, or the harness' STATEFUL user converter `sum_cc(off)` (`off` is
+    run-time state of the converter object; a default-constructed one has `off = 0`) -/
+inductive Conv where | default | sum (off : Nat)
   deriving DecidableEq, Repr
+
+/-- the state the harness gives its converter for content seed `s` (never 0) -/
+def ccOffset (s : Nat) : Nat := s % 251 + 1
 
 /-- one colour-converting dereference adaptor -/
 structure Adapt where
@@ -204,15 +209,15 @@ def convDefault (sf df : Fmt) (p : List Nat) : List Nat :=
       | .cmyk => s.map (chanConv sb df.bits)
       | _ => [])
 
-/-- the harness' user-defined converter `sum_cc` -/
-def convSum (df : Fmt) (p : List Nat) : List Nat :=
+/-- the harness' user-defined converter `sum_cc(off)` -/
+def convSum (off : Nat) (df : Fmt) (p : List Nat) : List Nat :=
   let sum := p.foldl (· + ·) 0
-  (List.range df.nc).map (fun j => (sum + 7 * j + 3) % 2 ^ df.bits)
+  (List.range df.nc).map (fun j => (sum + 7 * j + 3 + off) % 2 ^ df.bits)
 
 def Adapt.apply (a : Adapt) (p : List Nat) : List Nat :=
   match a.conv with
   | .default => convDefault a.src a.dst p
-  | .sum => convSum a.dst p
+  | .sum off => convSum off a.dst p
 
 /-! ### reading and writing through views -/
 
@@ -388,6 +393,10 @@ def Xf.lift (f : Xf) (a : AnyView) : AnyView := ⟨f.tag a.1, f.apply a.2⟩
 inductive Err where | badCast
   deriving DecidableEq, Repr
 
+/-- precondition that `copy_pixels` / `equal_pixels` (hence `copy_and_convert_pixels`) assert on the concrete views:
+    equal dimensions. It is checked AFTER the dispatch: incompatible alternatives give bad_cast whatever the sizes. -/
+def sameDims (a b : AnyView) : Bool := decide (a.2.w = b.2.w) && decide (a.2.h = b.2.h)
+
 /-- `binary_operation_obj`: compatible -> apply_compatible; incompatible -> throw std::bad_cast -/
 def binaryOp {β : Type} (f : {t1 t2 : Tag} → View t1 → View t2 → Mem → β × Mem) (a b : AnyView) (m : Mem) : Except Err β × Mem :=
   if compatible a.1.fmt b.1.fmt then
@@ -468,10 +477,10 @@ def val (s x y c bits : Nat) : Nat :=
 
 def content (f : Fmt) (s : Nat) (x y k : Nat) : Nat := val s x y (f.sem k) f.bits
 
-/-- `image(w, h)` filled with the content of seed `s`. As in image.hpp, a constructor call whose allocation size is
-    zero (w = 0 or h = 0) returns before the view is set: the image then reports 0 x 0. -/
-def Heap.make (hp : Heap) (f : Fmt) (w h s : Nat) : Image f × Heap :=
-  if w = 0 ∨ h = 0 then hp.newImage f 0 0 (content f s) else hp.newImage f w h (content f s)
+/-- `image(w, h)` filled with the content of seed `s`. (Until /repo commit 42a1d3b a constructor call with w = 0 or
+    h = 0 reported 0 x 0; the model followed that then, and follows the fixed behaviour now: the requested
+    dimensions are kept.) -/
+def Heap.make (hp : Heap) (f : Fmt) (w h s : Nat) : Image f × Heap := hp.newImage f w h (content f s)
 
 abbrev AnyImage := Σ f : Fmt, Image f
 
